@@ -1585,11 +1585,11 @@ func (enc *VP8Encoder) adjustQuantForTarget() bool {
 		// The pixel count is 384 per macroblock (16*16 Y + 8*8 U + 8*8 V),
 		// matching C libwebp's pixel_count = mb_w * mb_h * 384.
 		pixelCount := uint64(enc.mbW * enc.mbH * 384)
-		// Accumulate distortion from all macroblocks.
-		var totalDisto uint64
-		for i := range enc.mbInfo {
-			totalDisto += enc.mbInfo[i].Disto
-		}
+		// The pass has replaced the source planes by the reconstruction; the
+		// source was saved before the search started. (The per-macroblock
+		// Disto fields are never filled in, so they cannot be summed.)
+		totalDisto := planeSSE(enc.savedY, enc.yPlane) +
+			planeSSE(enc.savedU, enc.uPlane) + planeSSE(enc.savedV, enc.vPlane)
 		enc.rateCtrl.value = getPSNR(totalDisto, pixelCount)
 	}
 
@@ -1612,6 +1612,19 @@ func (enc *VP8Encoder) adjustQuantForTarget() bool {
 	enc.restoreSourcePixels()
 
 	return false // not converged, caller should re-encode
+}
+
+// planeSSE returns the sum of squared differences of two planes of equal size.
+func planeSSE(a, b []byte) uint64 {
+	if len(b) < len(a) {
+		a = a[:len(b)]
+	}
+	var sse uint64
+	for i, v := range a {
+		d := int(v) - int(b[i])
+		sse += uint64(d * d)
+	}
+	return sse
 }
 
 // saveSourcePixels saves the source YUV planes before encoding overwrites them.
